@@ -50,26 +50,63 @@ FRESH_METHODS = {
     "instantiateGlyphObject", "copy", "deepcopyExceptFonts", "copyDataFromGlyph", "keys", "values", "items", "getGlyphOrder", "getReverseGlyphMap",
     "getBounds", "getControlBounds", "asdict", "serialize", "map_forward", "map_backward", "getFullDesignLocation", "getFullUserLocation",
     "split", "rsplit", "strip", "lower", "upper", "format", "join", "replace", "encode", "decode", "startswith", "endswith", "title", "ljust", "rstrip", "lstrip",
-    "get_userspace_location", "getStatNames", "getVariableFonts", "normalizeLocation", "most_common", "groupby",
+    "get_userspace_location", "getStatNames", "getVariableFonts", "normalizeLocation", "most_common", "groupby", "getDataForSerialization",
 }
 PURE_BUILTINS = {
     "len", "isinstance", "issubclass", "hasattr", "int", "float", "str", "bool", "abs", "min", "max", "sum", "round", "any", "all", "repr",
     "hash", "id", "ord", "chr", "print", "callable", "format", "divmod", "pow", "hex", "bin", "oct", "otRound", "range", "bytes", "bytearray",
     "open", "object", "property", "staticmethod", "classmethod", "ValueError", "TypeError", "KeyError", "NotImplementedError",
+    "cast", "ceil", "floor", "sqrt", "log", "atan2", "degrees", "normpath", "evaluateRule", "optimizeWidths", "calcCodePageRanges",
 }
+# fontTools.designspaceLib.split: yield (key, document) pairs; each document is a NEW document whose source
+# descriptors still reference the original font objects
+DOC_SPLITTERS = {"splitInterpolable", "splitVariableFonts"}
+# library functions that modify (what is reachable from) their arguments
+MUTATING_FUNCS = {"fonts_to_quadratic", "glyphs_to_quadratic", "addGSUBFeatureVariations", "subroutinize", "compress", "closure_glyphs", "merge", "removeOverlaps"}
 COPYING_BUILTINS = {"list", "tuple", "set", "frozenset", "sorted", "reversed", "dict", "OrderedDict", "defaultdict", "Counter", "deque"}
+# library functions assumed to return a NEW object that does not alias their arguments (and not to mutate them)
+FRESH_FUNCS = {
+    "newTable", "buildCOLR", "buildCPAL", "buildMathTable", "getLogger", "import_module", "normalize", "unionRect", "binary2num", "pformat",
+    "radians", "tan", "gmtime", "strftime", "strptime", "timegm", "getfullargspec", "isclass", "split", "union", "calcIntBounds", "calcBounds",
+    "convertCFFToCFF2", "NamedTemporaryFile", "quantizeRect", "computeMegaGlyphs", "getTableClass", "getSearchRange", "hashlib", "sha256", "md5", "lookupKerningValue", "unicodeScriptDirection",
+    "script", "script_extension", "script_horizontal_direction", "ot_tags_from_script", "bidirectional", "parseLayoutFeatures", "instantiateVariableFont",
+    "build", "build_many", "load_designspace", "VariationModel", "normalizeLocation", "piecewiseLinearMap", "addOpenTypeFeatures", "addOpenTypeFeaturesFromString",
+    "compile", "sub", "match", "search", "findall", "fullmatch", "escape", "basename", "dirname", "join", "abspath", "exists", "warn",
+}
 ITER_BUILTINS = {"zip", "enumerate", "map", "filter", "iter", "chain", "zip_strict", "zip_longest", "product", "islice", "partial"}
 
 
+class FieldMap(dict):
+    """(object, attribute) -> points-to set, with an index of the attributes stored per object."""
+
+    def __init__(self):
+        super().__init__()
+        self.by_obj = defaultdict(set)
+
+    def __missing__(self, key):
+        v = set()
+        self[key] = v
+        self.by_obj[key[0]].add(key[1])
+        return v
+
+    def clear(self):
+        super().clear()
+        self.by_obj.clear()
+
+    def attrs_of(self, o):
+        return list(self.by_obj.get(o, ()))
+
+
 class Obj:
-    __slots__ = ("kind", "key", "py", "wraps", "through", "self_", "label")
+    __slots__ = ("kind", "key", "py", "wraps", "through", "self_", "label", "target")
 
     def __init__(self, kind, key, py=None, label=None):
         self.kind = kind
         self.key = key
         self.py = py
-        self.wraps = set()
-        self.through = False  # mutating this object mutates what it wraps (pens, views)
+        self.wraps = set()  # objects it may reference (reads through it can reach them)
+        self.target = set()  # objects that are MUTATED when this one is (a pen's output pen/glyph, a view's base)
+        self.through = False  # mutating this object mutates `target`
         self.self_ = None
         self.label = label or f"{kind}@{key}"
 
@@ -142,7 +179,7 @@ class Analysis:
         self.trees = {}
         self.funcs = {}  # id(pyfunc) -> Func
         self.V = defaultdict(set)
-        self.F = defaultdict(set)
+        self.F = FieldMap()
         self.R = defaultdict(set)
         self.Y = defaultdict(set)
         self.objs = {}
@@ -157,6 +194,14 @@ class Analysis:
         self.unknown_calls = set()
         self.roots = []
         self.cur = None
+        self.alias = {}
+        self.trusted_fresh = set()
+        self.watch = None
+        self.decided = {}  # `x is None` tests decided by a previous fixpoint (re-validated at the end)
+        self.new_decided = {}
+        self.deciding = False
+        self.cuts = set()  # (file, line): call expressions whose result is treated as NOT aliasing the sources (known findings)
+        self.cut_hits = set()
         self._load()
 
     # ---- program ----------------------------------------------------------------------------------
@@ -227,10 +272,19 @@ class Analysis:
         return self.objs[k]
 
     def site(self, node):
-        return (os.path.relpath(self.cur.func.file, "/repo") if self.cur.func.file.startswith("/repo") else self.cur.func.file.split("/Lib/")[-1], getattr(node, "lineno", 0), getattr(node, "col_offset", 0))
+        f = self.cur.func
+        rel = getattr(f, "_rel", None)
+        if rel is None:
+            rel = ("Lib/" + f.file.split("/Lib/")[-1]) if "/Lib/" in f.file else f.file
+            f._rel = rel
+        return (rel, getattr(node, "lineno", 0), getattr(node, "col_offset", 0))
 
     def add(self, s, new):
         n0 = len(s)
+        if self.watch is not None and self.SRC in new and self.SRC not in s:
+            for k, v in list(self.F.items()):
+                if v is s and self.watch(k):
+                    print("WATCH SRC ->", k[0].label, k[1], "at", self.cur.key[0] if self.cur else None)
         s |= new
         if len(s) != n0:
             self.changed = True
@@ -270,8 +324,8 @@ class Analysis:
                 if getattr(o.py, "__module__", "").startswith(self.pkg):
                     a = Alarm(st, what, o.label, self.cur.key)
                     self.globals_mut.setdefault(a.key(), a)
-            if o.through and o.wraps:
-                self.mutate(o.wraps, node, what, seen)
+            if o.through and o.target:
+                self.mutate(o.target, node, what, seen)
 
     # ---- expressions -----------------------------------------------------------------------------------
     def const(self, node, ctx):
@@ -306,12 +360,16 @@ class Analysis:
                 if lv is not ...:
                     res = lv is None
                     return res if isinstance(node.ops[0], ast.Is) else not res
-                pts = self.ev(node.left, ctx)
-                if pts:
-                    if self.NONE not in pts:
-                        return isinstance(node.ops[0], ast.IsNot)
-                    if pts == {self.NONE}:
-                        return isinstance(node.ops[0], ast.Is)
+                key = (ctx.key, node.lineno, node.col_offset)
+                if key in self.decided:
+                    return self.decided[key]
+                if self.deciding:
+                    pts = self.ev(node.left, ctx)
+                    if pts:
+                        if self.NONE not in pts:
+                            self.new_decided[key] = isinstance(node.ops[0], ast.IsNot)
+                        elif pts == {self.NONE}:
+                            self.new_decided[key] = isinstance(node.ops[0], ast.Is)
         return ...
 
     def ev(self, node, ctx):
@@ -327,14 +385,94 @@ class Analysis:
     def e_Constant(self, node, ctx):
         return {self.NONE} if node.value is None else set()
 
-    def lookup(self, name, ctx):
+    def lookup(self, name, ctx, line=None):
         c = ctx
+        first = True
         while c is not None:
-            k = (c.key, name)
-            if k in self.V or name in self.locals_of(c.func):
-                return self.V[k]
+            if name in self.locals_of(c.func) or (c.key, name) in self.V:
+                if first and line is not None:
+                    return self.V[self.vkey(c, name, line)]
+                return self.all_versions(c, name)
             c = c.func.parent
+            first = False
         return None
+
+    def const_syntactic(self, node):
+        """value of a test that depends only on the assumed names (inplace), else `...`"""
+        if isinstance(node, ast.Name) and node.id in self.assume:
+            return self.assume[node.id]
+        if isinstance(node, ast.Attribute) and node.attr in self.assume:
+            return self.assume[node.attr]
+        if isinstance(node, ast.UnaryOp) and isinstance(node.op, ast.Not):
+            v = self.const_syntactic(node.operand)
+            return ... if v is ... else (not v)
+        return ...
+
+    def strong_defs(self, func):
+        """name -> sorted end-lines of the assignments that are executed on every path through the function
+        (top level, or inside an `if` whose test is constant under the assumptions): these KILL earlier
+        values of the name, which gives `x = copy(x)` at the top of a function its real meaning."""
+        if not hasattr(func, "_strong"):
+            out = {}
+            node = func.node
+            if not isinstance(node, ast.Lambda):
+                def scan(stmts):
+                    for st in stmts:
+                        if isinstance(st, (ast.Assign, ast.AnnAssign)):
+                            tgts = st.targets if isinstance(st, ast.Assign) else [st.target]
+                            for t in tgts:
+                                for n in ([t] if isinstance(t, ast.Name) else (t.elts if isinstance(t, (ast.Tuple, ast.List)) else [])):
+                                    if isinstance(n, ast.Name) and (isinstance(st, ast.Assign) or st.value is not None):
+                                        out.setdefault(n.id, []).append(st.end_lineno)
+                        elif isinstance(st, ast.If):
+                            c = self.const_syntactic(st.test)
+                            if c is not ...:
+                                scan(st.body if c else st.orelse)
+                        elif isinstance(st, ast.With):
+                            scan(st.body)
+                scan(node.body)
+                # a name that is also bound by a nested function / global statement is left alone
+                for n in ast.walk(node):
+                    if isinstance(n, (ast.Global, ast.Nonlocal)):
+                        for nm in n.names:
+                            out.pop(nm, None)
+            func._strong = {k: sorted(v) for k, v in out.items()}
+        return func._strong
+
+    def vkey(self, ctx, name, line, strong_stmt_end=None):
+        sd = self.strong_defs(ctx.func).get(name)
+        if not sd:
+            return (ctx.key, name)
+        if strong_stmt_end is not None and strong_stmt_end in sd:
+            k = sd.index(strong_stmt_end) + 1
+        else:
+            k = sum(1 for e in sd if e < line)
+        return (ctx.key, name if k == 0 else f"{name}#{k}")
+
+    def all_versions(self, ctx, name):
+        sd = self.strong_defs(ctx.func).get(name) or []
+        out = set(self.V[(ctx.key, name)])
+        for k in range(1, len(sd) + 1):
+            out |= self.V[(ctx.key, f"{name}#{k}")]
+        return out
+
+    def literal_loop_targets(self, func):
+        if not hasattr(func, "_llt"):
+            out = {}
+            node = func.node
+            if not isinstance(node, ast.Lambda):
+                stores = {}
+                for n in ast.walk(node):
+                    if isinstance(n, ast.Name) and isinstance(n.ctx, (ast.Store, ast.Del)):
+                        stores[n.id] = stores.get(n.id, 0) + 1
+                params = {x.arg for x in node.args.posonlyargs + node.args.args + node.args.kwonlyargs}
+                for n in ast.walk(node):
+                    if isinstance(n, ast.For) and isinstance(n.iter, (ast.Tuple, ast.List)) and n.iter.elts and isinstance(n.target, ast.Name):
+                        x = n.target.id
+                        if stores.get(x) == 1 and x not in params and not any(isinstance(b, ast.Break) for b in ast.walk(n)):
+                            out[x] = (n.lineno, n.end_lineno, n.iter.elts[-1])
+            func._llt = out
+        return func._llt
 
     def locals_of(self, func):
         if not hasattr(func, "_locals"):
@@ -365,7 +503,12 @@ class Analysis:
     def e_Name(self, node, ctx):
         if node.id in self.assume:
             return set()
-        r = self.lookup(node.id, ctx)
+        lt = self.literal_loop_targets(ctx.func).get(node.id)
+        if lt is not None and not (lt[0] <= node.lineno <= lt[1]):
+            # `for x in (a, b): ...` is the only binding of x: after the loop x is the LAST element
+            if node.lineno > lt[1]:
+                return self.ev(lt[2], ctx)
+        r = self.lookup(node.id, ctx, node.lineno)
         if r is not None:
             return set(r)
         mod = ctx.func.module
@@ -422,9 +565,12 @@ class Analysis:
             elif o.kind == "glob":
                 continue
             else:  # cont / ext / func / bound
-                out |= self.F[(o, name)]
-                if o.kind == "ext":
-                    out |= o.wraps
+                known = self.F[(o, name)]
+                out |= known
+                if o.kind == "ext" and not known:
+                    # unknown attribute of a library object: part of that object's own state (assumption:
+                    # library objects hand their constructor arguments back only through the catalogued
+                    # protocols: keyword-named attributes, pens' output pen, container elements)
                     out.add(o)
         return out
 
@@ -492,13 +638,15 @@ class Analysis:
             elif o.kind in ("NONE", "cls", "mod", "func", "glob", "bound"):
                 continue
             elif o.kind == "attrs":
-                for (oo, a), st_ in list(self.F.items()):
-                    if oo is o.py or oo is o:
-                        out |= st_
+                for oo in (o.py, o):
+                    for a in self.F.attrs_of(oo):
+                        out |= self.F[(oo, a)]
             else:
                 out |= self.F[(o, "[]")]
-                if o.kind == "ext":
-                    out |= o.wraps
+                if o.kind == "cont":
+                    for a in self.F.attrs_of(o):
+                        if isinstance(a, str) and a.startswith("k:"):
+                            out |= self.F[(o, a)]
         return out
 
     def e_Subscript(self, node, ctx):
@@ -507,6 +655,18 @@ class Analysis:
         if isinstance(node.slice, ast.Slice):
             return self.new_cont(node, self.elements(base), "slice")
         return self.elements(base)
+
+    def rows(self, node, columns, what):
+        """Iterable of fixed-arity tuples (zip / enumerate / dict.items): one abstract row with positional
+        columns, so that `for a, b in zip(xs, ys)` binds a and b to the right columns."""
+        (z,) = self.new_cont(node, set(), what)
+        row = self.obj("cont", (z.key, "row"), None, f"row of {z.label}")
+        row.py = len(columns)
+        for i, c in enumerate(columns):
+            self.add(self.F[(row, ("pos", i))], c)
+            self.add(self.F[(row, "[]")], c)
+        self.add(self.F[(z, "[]")], {row})
+        return {z}
 
     def new_cont(self, node, elems, what="cont"):
         o = self.obj("cont", (self.cur.key, getattr(node, "lineno", 0), getattr(node, "col_offset", 0), what), None, f"{what}@{self.site(node)[0]}:{node.lineno}")
@@ -535,12 +695,21 @@ class Analysis:
 
     def e_Dict(self, node, ctx):
         el = set()
+        keyed = []
         for k, v in zip(node.keys, node.values):
             if k is None:
                 el |= self.elements(self.ev(v, ctx))
             else:
-                el |= self.ev(k, ctx) | self.ev(v, ctx)
-        return self.new_cont(node, el, "dict")
+                self.ev(k, ctx)  # keys are (hashable, hence immutable) values: not tracked as elements
+                if isinstance(k, ast.Constant) and isinstance(k.value, str):
+                    keyed.append((k.value, self.ev(v, ctx)))
+                else:
+                    el |= self.ev(v, ctx)
+        r = self.new_cont(node, el, "dict")
+        (o,) = r
+        for kk, vs in keyed:
+            self.add(self.F[(o, "k:" + kk)], vs)
+        return r
 
     def comp(self, node, ctx, elts):
         for g in node.generators:
@@ -559,7 +728,7 @@ class Analysis:
     e_SetComp = e_GeneratorExp = e_ListComp
 
     def e_DictComp(self, node, ctx):
-        return self.comp(node, ctx, [node.key, node.value])
+        return self.comp(node, ctx, [node.value])
 
     def e_IfExp(self, node, ctx):
         c = self.const(node.test, ctx)
@@ -637,6 +806,17 @@ class Analysis:
 
     # ---- calls -------------------------------------------------------------------------------------------------
     def e_Call(self, node, ctx):
+        r = self.e_Call_(node, ctx)
+        st = self.site(node)
+        if (st[0], st[1]) in self.cuts:
+            # known finding: the value produced here is treated as a fresh object (the finding itself is
+            # reported separately) so that violations that do NOT stem from it remain visible
+            if any(o.kind == "SRC" for o in r | self.elements(r)):
+                self.cut_hits.add((st[0], st[1]))
+            return self.new_cont(node, set(), "cut")
+        return r
+
+    def e_Call_(self, node, ctx):
         f = node.func
         args = []
         for a in node.args:
@@ -649,8 +829,8 @@ class Analysis:
         for k in node.keywords:
             if k.arg is None:
                 kv = self.ev(k.value, ctx)
-                star_kw |= {o for o in kv if o.kind == "attrs"}
-                star_kw |= self.elements({o for o in kv if o.kind != "attrs"}) | {o for o in kv if o.kind in ("SRC", "GS")}
+                star_kw |= {o for o in kv if o.kind in ("attrs", "cont")}
+                star_kw |= self.elements({o for o in kv if o.kind not in ("attrs", "cont")}) | {o for o in kv if o.kind in ("SRC", "GS")}
             else:
                 kwargs[k.arg] = (k.value, self.ev(k.value, ctx))
         # method call on an object
@@ -667,6 +847,8 @@ class Analysis:
         callees = self.ev(f, ctx)
         out = set()
         if isinstance(f, ast.Name) and not callees:
+            if self.lookup(f.id, ctx) is not None:
+                return set()  # a local variable that holds no callable (yet): nothing to call
             return self.lib_call(f.id, None, node, args, kwargs, star_kw, ctx)
         for c in callees:
             out |= self.apply(c, node, args, kwargs, star_kw, ctx)
@@ -692,13 +874,19 @@ class Analysis:
             if name in PEN_GETTERS:
                 return {o}
             if name in DRAW_METHODS or name in PEN_METHODS:
-                for _, s in args:
+                for _, s in (args[:1] if name in DRAW_METHODS else args):
                     self.mutate_through(s, node, f".{name}(pen)")
                 if name in PEN_METHODS:
                     self.mutate({o}, node, f".{name}()")
                 return set()
+            if name == "deepcopyExceptFonts":
+                # a fresh designspace document whose sources are fresh descriptors that still reference the
+                # ORIGINAL font objects through `.font` (fontTools.designspaceLib; assumed)
+                return self.derived_doc(node, {o})
             if name in FRESH_METHODS:
                 return self.new_ext(node, {o} | A, through=False)
+            if name == "items":
+                return self.rows(node, [set(), {o}], "items")
             if name == "get" or name == "__getitem__":
                 r = {o}
                 for _, s in args[1:]:
@@ -734,14 +922,19 @@ class Analysis:
                 self.add(self.F[(o, "[]")], A)
                 return {o}
             if name in PEN_GETTERS:
-                p = self.new_ext(node, {o}, through=True)
-                return p
+                return self.new_ext(node, {o}, through=True, target={o})
             if name in DRAW_METHODS:
-                for _, s in args:
+                for _, s in args[:1]:
                     self.mutate_through(s, node, f".{name}(pen)")
                 return set()
-            if name in ("get", "__getitem__", "items", "values", "keys"):
+            if name in ("get", "__getitem__", "values", "keys"):
                 return self.elements({o}) | {o}
+            if name == "items":
+                return self.rows(node, [set(), self.elements({o}) | {o}], "items")
+            if name in ("findDefault", "getSourceByName") or name.startswith("find"):
+                return {o}
+            if name == "deepcopyExceptFonts":
+                return self.derived_doc(node, {o})
             return self.new_ext(node, {o} | A, through=False)
         if o.kind in ("cls", "mod", "super", "func", "bound", "extcls"):
             for c in self.getattr_objs({o}, name, node, ctx):
@@ -751,17 +944,22 @@ class Analysis:
 
     def mutate_through(self, objs, node, what):
         for o in objs:
-            self.mutate({o}, node, what)
-            if o.kind == "ext" and o.wraps and not o.through:
-                # a pen-like library object handed to draw(): it forwards to what it wraps
-                self.mutate(o.wraps, node, what)
+            self.mutate({o}, node, what)  # wrapping pens forward to their target (Obj.through)
 
     def cont_method(self, o, name, node, args, kwargs, A):
         el = self.F[(o, "[]")]
-        if name in ("append", "add", "insert", "setdefault", "__setitem__"):
+        if name in ("setdefault", "__setitem__", "insert"):
+            # first argument is a key / position, not an element
+            self.mutate({o}, node, f".{name}()")
+            rest = set()
+            for _, s_ in args[1:]:
+                rest |= s_
+            self.add(el, rest)
+            return self.elements({o}) if name == "setdefault" else set()
+        if name in ("append", "add"):
             self.mutate({o}, node, f".{name}()")
             self.add(el, A)
-            return self.elements({o}) if name == "setdefault" else set()
+            return set()
         if name in ("extend", "update", "difference_update", "intersection_update", "symmetric_difference_update"):
             self.mutate({o}, node, f".{name}()")
             self.add(el, self.elements(A) | {x for x in A if x.kind not in ("cont",)})
@@ -776,18 +974,38 @@ class Analysis:
             for _, s in args[1:]:
                 r |= s
             return r
-        if name in ("items", "values", "keys", "copy", "__iter__", "union", "difference", "intersection", "most_common", "elements"):
+        if name == "items":
+            return self.rows(node, [set(), self.elements({o})], "items")
+        if name in ("values", "keys", "copy", "__iter__", "union", "difference", "intersection", "most_common", "elements"):
             extra = self.elements(A) if name in ("union",) else set()
             return self.new_cont(node, self.elements({o}) | extra, name)
         if name in ("index", "count", "isdisjoint", "issubset", "issuperset", "__contains__", "__len__", "join", "format"):
             return set()
         return self.elements({o})
 
-    def new_ext(self, node, wraps, through):
+    def derived_doc(self, node, docs):
+        """A fresh designspace-like object derived from `docs`: its own attributes/elements are fresh (itself),
+        but the attributes stored on the originals (in particular `.font`) are still reachable through it."""
+        r = self.new_ext(node, set(), through=False)
+        (e,) = r
+        self.add(self.F[(e, "[]")], {e})
+        for d in docs:
+            if d.kind in ("SRC", "GS"):
+                self.add(self.F[(e, "font")], {d})
+            elif d.kind == "ext":
+                for a in self.F.attrs_of(d):
+                    if a != "[]":
+                        self.add(self.F[(e, a)], self.F[(d, a)])
+        return r
+
+    def new_ext(self, node, wraps, through, target=None):
         o = self.obj("ext", (self.cur.key, getattr(node, "lineno", 0), getattr(node, "col_offset", 0)), None, f"lib-object@{self.site(node)[0]}:{node.lineno}")
-        n0 = len(o.wraps)
-        o.wraps |= {w for w in wraps if w.kind not in ("NONE", "cls", "mod", "func", "bound", "extcls", "glob")}
-        if len(o.wraps) != n0:
+        n0 = len(o.wraps) + len(o.target)
+        ok = lambda w: w.kind not in ("NONE", "cls", "mod", "func", "bound", "extcls", "glob")  # noqa: E731
+        o.wraps |= {w for w in wraps if ok(w)}
+        if through:
+            o.target |= {w for w in (target if target is not None else wraps) if ok(w)}
+        if len(o.wraps) + len(o.target) != n0:
             self.changed = True
         o.through = o.through or through
         return {o}
@@ -826,21 +1044,48 @@ class Analysis:
         pycls = c.py
         mod = getattr(pycls, "__module__", "")
         A = self.all_args(args, kwargs, star_kw)
+        if pycls is super:
+            return self.lib_call("super", None, node, args, kwargs, star_kw, ctx)
         if not mod.startswith(self.pkg):
             name = pycls.__name__
             if issubclass(pycls, BaseException):
                 return set()
             if name in COPYING_BUILTINS or pycls in (list, tuple, set, frozenset, dict):
-                return self.new_cont(node, self.elements(A) | star_kw | {x for _, (_, s) in kwargs.items() for x in s}, name)
+                pos_el = set()
+                for _, s_ in args:
+                    pos_el |= self.elements(s_)
+                r = self.new_cont(node, pos_el | self.elements(star_kw), name)
+                (o,) = r
+                for kk, (_, s_) in kwargs.items():
+                    self.add(self.F[(o, "k:" + kk)], s_)
+                for _, s_ in args:  # dict(other): keyed entries are copied
+                    for src in s_:
+                        if src.kind == "cont":
+                            for a in self.F.attrs_of(src):
+                                if isinstance(a, str) and a.startswith("k:"):
+                                    self.add(self.F[(o, a)], self.F[(src, a)])
+                return r
             if pycls in (int, float, str, bool, bytes, type, object):
                 if pycls is type and len(args) == 1:
                     return self.classes_of(args[0][1])
                 return set()
+            if name in ("zip", "zip_longest"):
+                return self.rows(node, [self.elements(s_) for _, s_ in args], name)
+            if name == "enumerate":
+                return self.rows(node, [set(), self.elements(args[0][1]) if args else set()], name)
             if name in ITER_BUILTINS or mod == "itertools":
                 return self.new_cont(node, self.elements(A) | {x for x in A if x.kind == "func"}, name)
-            # library object: may keep references to its arguments (pens wrap pens)
+            # library object: may keep references to its arguments; a pen forwards what is drawn into it to
+            # its FIRST argument (the output pen) only
             pen_like = name.endswith("Pen") or "Pen" in name
-            return self.new_ext(node, A, through=pen_like)
+            # wrapping pens forward to their first argument (the output pen); stand-alone pens (hash, bounds,
+            # recording, glyph-building pens) keep what is drawn to themselves
+            wrapping = pen_like and any(w in name for w in ("Transform", "Reverse", "Cu2Qu", "Filter", "Rounding", "Decomposing", "Segment", "Guess", "Tee", "Dashed", "Explicit"))
+            r = self.new_ext(node, A, through=wrapping, target=(args[0][1] if args else set()) if wrapping else None)
+            (o,) = r
+            for kk, (_, sv) in kwargs.items():
+                self.add(self.F[(o, kk)], sv)
+            return r
         o = self.obj("inst", (pycls.__module__ + "." + pycls.__qualname__, self.cur.key[0], getattr(node, "lineno", 0), getattr(node, "col_offset", 0)), pycls, f"{pycls.__name__}@{self.site(node)[0]}:{getattr(node, 'lineno', 0)}")
         k, init = self.class_attr(pycls, "__init__")
         fn = self.func_of(init) if init is not None else None
@@ -867,6 +1112,25 @@ class Analysis:
         A = self.all_args(args, kwargs, star_kw)
         if name in PURE_BUILTINS:
             return set()
+        if py is not None and getattr(py, "__module__", "").startswith("booleanOperations"):
+            # union(contours, outPen) & co draw their result into the pen given as second argument
+            if len(args) > 1:
+                self.mutate_through(args[1][1], node, f"{name}(…, pen)")
+            return set()
+        if name in ("union", "difference", "intersection", "issubset", "issuperset", "isdisjoint") and (py is None or getattr(py, "__objclass__", None) in (set, frozenset)):
+            return self.new_cont(node, self.elements(A), name)
+        if name in DOC_SPLITTERS:
+            r = self.derived_doc(node, A)
+            return self.rows(node, [set(), r], name)
+        if name in MUTATING_FUNCS:
+            deep = set(args[0][1]) if args else set()  # the first positional argument is what gets modified
+            for _ in range(3):
+                deep |= self.elements(deep)
+            self.mutate(deep, node, f"{name}(…)")
+            return self.new_ext(node, set(), through=False)
+        if name in FRESH_FUNCS:
+            self.trusted_fresh.add(name)
+            return self.new_ext(node, set(), through=False)
         if name == "deepcopy":
             return self.new_cont(node, set(), "deepcopy")
         if name == "copy" and py is not None and getattr(py, "__module__", "") == "copy":
@@ -874,6 +1138,10 @@ class Analysis:
             return o
         if name in COPYING_BUILTINS:
             return self.new_cont(node, self.elements(A), name)
+        if name in ("zip", "zip_strict", "zip_longest"):
+            return self.rows(node, [self.elements(s_) for _, s_ in args], name)
+        if name == "enumerate":
+            return self.rows(node, [set(), self.elements(args[0][1]) if args else set()], name)
         if name in ITER_BUILTINS:
             return self.new_cont(node, self.elements(A) | {x for x in A if x.kind in ("func", "bound")}, name)
         if name == "next":
@@ -887,9 +1155,8 @@ class Analysis:
                 for o in args[0][1]:
                     if o.kind in ("SRC", "GS"):
                         out.add(o)
-                    for (oo, a), s in list(self.F.items()):
-                        if oo is o:
-                            out |= s
+                    for a in self.F.attrs_of(o):
+                        out |= self.F[(o, a)]
                     if o.kind == "inst":
                         for k in o.py.__mro__:
                             for nm, v in k.__dict__.items():
@@ -933,7 +1200,7 @@ class Analysis:
             return set()
         # unknown library function: the result may reference (and, if mutated, alias) its arguments
         self.unknown_calls.add(name)
-        r = self.new_ext(node, A, through=True)
+        r = self.new_ext(node, A, through=True, target=A)
         # callbacks handed to library code are invoked with unknown (library) arguments
         for a in A:
             if a.kind in ("func", "bound") and (isinstance(a.py, Func) or self.func_of(a.py) is not None):
@@ -943,6 +1210,17 @@ class Analysis:
     def call_func(self, fn, pos, kw, node, ctx, args=None, kwargs=None, star_kw=frozenset()):
         if fn.qual.startswith("ufo2ft.util:prune_unknown_kwargs@") and pos:
             return set(pos[0])  # returns the subset of its first argument that the callables accept
+        if fn.qual.startswith("ufo2ft.filters:getFilterClass@"):
+            # filters named in the UFO lib are resolved dynamically: any filter class shipped in ufo2ft.filters
+            out = set()
+            for mn, m in list(sys.modules.items()):
+                if m is not None and mn.startswith(self.pkg + ".filters"):
+                    for v in vars(m).values():
+                        if isinstance(v, type) and v.__module__.startswith(self.pkg + ".filters") and v.__name__.endswith("Filter") and not v.__name__.endswith("IFilter"):
+                            out |= self.wrap_py(v)
+            return out
+        if fn.qual.startswith("ufo2ft.util:zip_strict@") and node is not None:
+            return self.rows(node, [self.elements(s_) for s_ in pos], "zip_strict")
         fnode = fn.node
         a = fnode.args
         params = [x.arg for x in a.posonlyargs + a.args]
@@ -984,9 +1262,10 @@ class Analysis:
             else:
                 extra |= s
         if args is not None:
-            for an, s in args:
+            for i, (an, s) in enumerate(args):
                 if an == "*":
-                    for p in params:
+                    # *iterable at position i can only bind parameters from position i on
+                    for p in params[i:]:
                         self.add(self.V[(callee.key, p)], s)
                     extra |= s
         if a.vararg:
@@ -1001,18 +1280,23 @@ class Analysis:
                 kextra |= s
         if star_kw:
             views = {o for o in star_kw if o.kind == "attrs"}
-            plain = set(star_kw) - views
+            dicts = {o for o in star_kw if o.kind == "cont"}
+            plain = set(star_kw) - views - dicts
+            for d in dicts:
+                plain |= self.F[(d, "[]")]  # entries under unknown keys may bind any parameter
             npos = len(pos)
             for p in params[npos:] + kwonly:
                 if p in kw:
                     continue
                 self.add(self.V[(callee.key, p)], plain)
+                for d in dicts:
+                    self.add(self.V[(callee.key, p)], self.F[(d, "k:" + p)])
                 for v in views:
                     self.add(self.V[(callee.key, p)], self.F[(v.py, p)] | self.F[(v, "k:" + p)])
                     k_, cv = self.class_attr(v.py.py, p)
                     if k_ is not None and not self.F[(v.py, p)]:
                         self.add(self.V[(callee.key, p)], self.bind(cv, v.py, k_, p) if not isinstance(cv, (types.FunctionType, property)) else set())
-            kextra |= plain | self.elements(views)
+            kextra |= plain | self.elements(views) | self.elements(dicts)
         if a.kwarg:
             ko = self.obj("cont", (callee.key, "**kwargs"), None, f"**kwargs of {fn.qual}")
             self.add(self.F[(ko, "[]")], kextra)
@@ -1035,9 +1319,8 @@ class Analysis:
         if isinstance(target, ast.Name):
             if target.id in self.assume:
                 return
-            c = ctx
-            # closures write to the enclosing function's variable only via nonlocal; comprehension targets are local
-            self.add(self.V[(c.key, target.id)], val)
+            strong_end = node.end_lineno if isinstance(node, (ast.Assign, ast.AnnAssign)) and not is_comp else None
+            self.add(self.V[self.vkey(ctx, target.id, getattr(target, "lineno", 0), strong_end)], val)
         elif isinstance(target, (ast.Tuple, ast.List)):
             n = len(target.elts)
             for i, t in enumerate(target.elts):
@@ -1073,14 +1356,18 @@ class Analysis:
                         self.add(self.F[(o, "k:" + target.slice.value)], val)
                     else:
                         self.add(self.F[(o, "[]")], val)
+                elif o.kind == "cont" and isinstance(target.slice, ast.Constant) and isinstance(target.slice.value, str):
+                    self.add(self.F[(o, "k:" + target.slice.value)], val)
                 elif o.kind not in ("SRC", "GS", "NONE"):
                     self.add(self.F[(o, "[]")], val)
         elif isinstance(target, ast.Starred):
             self.assign(target.value, val, ctx, node)
 
     def run_body(self, stmts, ctx):
+        saved = dict(self.alias)
         for s in stmts:
             self.stmt(s, ctx)
+        self.alias = saved  # a post-loop alias is valid until the end of the block that contains the loop
 
     def stmt(self, s, ctx):
         if isinstance(s, ast.Expr):
@@ -1097,11 +1384,14 @@ class Analysis:
             if isinstance(s.target, ast.Name):
                 cur = self.ev(s.target, ctx)
                 conts = {o for o in cur if o.kind in ("cont", "SRC", "GS", "ext", "inst", "glob")}
-                if conts and (v or isinstance(s.op, (ast.Add, ast.BitOr, ast.BitAnd, ast.Sub))):
-                    # `x += y` mutates x in place when x is a list/set/dict
-                    only_num = not v and not any(self.F[(o, "[]")] for o in conts if o.kind == "cont")
-                    if not only_num:
-                        self.mutate({o for o in conts if o.kind != "SRC" or True}, s, "augmented assignment")
+                rhs_container = isinstance(s.value, (ast.List, ast.Set, ast.Dict, ast.ListComp, ast.SetComp, ast.DictComp, ast.Tuple)) or (
+                    isinstance(s.value, ast.Call) and isinstance(s.value.func, ast.Name) and s.value.func.id in COPYING_BUILTINS
+                ) or any(o.kind == "cont" for o in v)
+                if conts and isinstance(s.op, (ast.Add, ast.BitOr, ast.BitAnd, ast.Sub, ast.BitXor)):
+                    # `x += y` mutates x in place when x is a list/set/dict; numbers and strings are rebound.
+                    # Without types the right-hand side decides: a container-valued RHS means a container update.
+                    if rhs_container:
+                        self.mutate(conts, s, "augmented assignment")
                         for o in conts:
                             if o.kind == "cont":
                                 self.add(self.F[(o, "[]")], self.elements(v))
@@ -1186,7 +1476,40 @@ class Analysis:
     def new_instance(self, pycls, label=None):
         return self.obj("inst", (pycls.__module__ + "." + pycls.__qualname__, "root"), pycls, label or f"{pycls.__name__}@root")
 
-    def solve(self, max_rounds=60):
+    def solve(self, max_rounds=60, max_restarts=6):
+        """Fixpoint, then decide `x is None` tests from the final points-to sets and restart with the dead
+        branches removed, until the set of decided tests is stable and re-validated by the last run."""
+        for restart in range(max_restarts):
+            self.V.clear(); self.F.clear(); self.R.clear(); self.Y.clear()
+            self.objs = {k: v for k, v in self.objs.items() if k[0] in ("SRC", "GS", "NONE")}
+            self.ctxs.clear(); self.alarms.clear(); self.sites.clear(); self.globals_mut.clear()
+            self.unknown_calls.clear(); self.cut_hits.clear()
+            self.changed = True
+            self.solve_once(max_rounds)
+            # decide tests in the final state (no state change is kept from this pass)
+            self.deciding = True
+            self.new_decided = {}
+            snap = (dict(self.alarms), dict(self.sites), dict(self.globals_mut))
+            self.changed = False
+            for ckey in list(self.ctxs):
+                c = self.ctxs[ckey]
+                self.cur = c
+                for n in ast.walk(c.func.node):
+                    if isinstance(n, (ast.If, ast.IfExp)):
+                        self.const(n.test, c)
+            self.deciding = False
+            self.alarms, self.sites, self.globals_mut = snap
+            nd = dict(self.new_decided)
+            for k, v in self.decided.items():
+                nd.setdefault(k, v) if k in self.new_decided else None
+            if nd == self.decided:
+                self.restarts = restart + 1
+                return self.rounds
+            self.decided = nd
+        self.restarts = max_restarts
+        return self.rounds
+
+    def solve_once(self, max_rounds=60):
         rf = Func.__new__(Func)
         rf.qual = "<root>"
         root_ctx = Ctx(rf, ())
